@@ -280,7 +280,8 @@ def gen_spec(seed, index, tier):
     stale = []
     if index % 2 == 1:
         stale = sorted(rng.sample(["BORN", "FORCE_CONSTANTS"], rng.randint(1, 2)))
-    return dict(seed=seed, world=w.spec, calc=calc, dim=dim, pa=disp["pa"], disp=disp, steps=steps, routes=routes, has_born=has_born, stale=stale, save_params=rng.random() < 0.3)
+    return dict(seed=seed, world=w.spec, calc=calc, born_factor=(rng.choice([14.400, 14.5]) if (has_born and calc == "vasp" and rng.random() < 0.4) else None),
+                dim=dim, pa=disp["pa"], disp=disp, steps=steps, routes=routes, has_born=has_born, stale=stale, save_params=rng.random() < 0.3)
 
 
 # ------------------------------------------------------------------ running the CLI in a fresh process
@@ -652,6 +653,12 @@ def execute(spec):
             n = w.nac_params(tmp.primitive)
             if n is not None:
                 write_BORN(tmp.primitive, n["born"], n["dielectric"], filename="BORN")
+                if spec.get("born_factor"):
+                    # a BORN file that states its own unit conversion factor on the first line (documented format)
+                    lines = open("BORN").read().split("\n")
+                    lines[0] = "%s" % spec["born_factor"]
+                    with open("BORN", "w") as f_:
+                        f_.write("\n".join(lines))
         os.chdir("/")
         shutil.copytree(A.path, B.path, dirs_exist_ok=True)
         # ---- step 1: create displacements, both routes
